@@ -109,16 +109,32 @@ class IndexMonitor:
         self.cls.find = self.orig
 
 
-def run_problog(prog, q, monitor=True):
-    """Answers of `q` (a term) as canonical terms, in the order returned by the engine. Returns (answers, problems)."""
+class Timeout(Exception):
+    pass
+
+
+def _alarm(signum, frame):
+    raise Timeout()
+
+
+def run_problog(prog, q, limit=4.0):
+    """Answers of `q` (a term) as canonical terms, in the order returned by the engine. Returns (answers, problems).
+    Raises Timeout when the engine needs more than `limit` seconds (cost, not correctness: the case is skipped)."""
+    import signal
     from problog.program import PrologString
     from problog.engine import DefaultEngine
     from problog.logic import Term
     src = U.pl_program(prog)
     eng = DefaultEngine()
-    with IndexMonitor() as mon:
-        db = eng.prepare(PrologString(src))
-        res = eng.query(db, U.to_problog(q))
+    old = signal.signal(signal.SIGALRM, _alarm)
+    signal.setitimer(signal.ITIMER_REAL, limit)
+    try:
+        with IndexMonitor() as mon:
+            db = eng.prepare(PrologString(src))
+            res = eng.query(db, U.to_problog(q))
+    finally:
+        signal.setitimer(signal.ITIMER_REAL, 0)
+        signal.signal(signal.SIGALRM, old)
     name = q if isinstance(q, str) else q[1]
     return [U.canon_vars(U.from_problog(Term(name, *r))) for r in res], mon.problems
 
@@ -346,6 +362,9 @@ def run(ctx):
             pb, problems = run_problog(prog, q)
         except Infra:
             raise
+        except Timeout:
+            ctx.count("%s:skipped-problog-timeout" % family)
+            return
         except Exception as e:
             sig = {"kind": "exception", "exception": type(e).__name__}
             fails.append(("%s raised on a deterministic program: %s" % (type(e).__name__, str(e)[:100]), sig, family, prog, q))
@@ -396,6 +415,11 @@ def run(ctx):
         wprog = [(1, U.F('p', U.V(0), '1'), U.TRUE), (0, U.F('p', 'a', '2'), U.TRUE), (0, U.F('p', 'b', '3'), U.TRUE),
                  (1, U.F('p', U.V(0), '4'), U.TRUE), (2, U.F('q', U.V(1)), ('findall', U.V(0), ('call', U.F('p', 'a', U.V(0))), U.V(1)))]
         handle("findall", wprog, U.F('q', U.V(0)))
+        # pinned witness of the EvalAnd defect (first conjunct FALSE): e(b). p(a) :- (e(b), \+e(b)), true.
+        eb = ('call', U.F('e', 'b'))
+        wprog2 = [(0, U.F('e', 'b'), U.TRUE), (0, U.F('p', 'a'), ('and', ('and', eb, ('not', eb)), U.TRUE)),
+                  (3, U.F('q', U.V(2)), ('findall', U.V(1), ('findall', U.V(0), ('call', U.F('p', U.V(0))), U.V(1)), U.V(2)))]
+        handle("findall", wprog2, U.F('q', U.V(0)))
         # ---- structural recursion
         rng = ctx.sub_rng("struct")
         for _ in range(ctx.budget(120, 3000)):
@@ -441,6 +465,9 @@ def run(ctx):
                     pb, problems = run_problog(prog, q)
                 except Infra:
                     raise
+                except Timeout:
+                    ctx.count("tabled:skipped-problog-timeout")
+                    continue
                 except Exception as e:
                     fails.append(("%s raised on a deterministic recursive program: %s" % (type(e).__name__, str(e)[:100]),
                                   {"kind": "exception", "exception": type(e).__name__}, "tabled", prog, q))
@@ -470,6 +497,8 @@ def run(ctx):
                 fails.append(("call of an undefined predicate did not raise", {"kind": "no-existence-error"}, "undefined", prog, q))
             except UnknownClause:
                 ctx.count("undefined:UnknownClause")
+            except Timeout:
+                ctx.count("undefined:skipped-problog-timeout")
             except Exception as e:
                 fails.append(("call of an undefined predicate raised %s" % type(e).__name__,
                               {"kind": "exception", "exception": type(e).__name__}, "undefined", prog, q))
